@@ -7,7 +7,8 @@ ID="$1"; TIER="${2:-quick}"; shift; shift || true
 export VERIF_TIER="$TIER"
 cd /verif/harness || exit 2
 mkdir -p /verif/.build /verif/evidence /verif/replays
-build() { go build -tags verif -ldflags=-checklinkname=0 -o /verif/.build/$1 ./cmd/$1 2>/verif/.build/$1.build.log; }
+# build to a private name and rename, so that checks running in parallel never execute a half-written binary
+build() { go build ${2:-} -tags verif -ldflags=-checklinkname=0 -o /verif/.build/$1${3:-}.$$ ./cmd/$1 2>/verif/.build/$1${3:-}.build.log && mv -f /verif/.build/$1${3:-}.$$ /verif/.build/$1${3:-}; }
 case "$ID" in
   C09) BIN=olc09 ;;
   C16) BIN=olc16 ;;
@@ -18,6 +19,10 @@ if ! build "$BIN"; then
 fi
 if [ "$BIN" = olmon ]; then
   if ! build olbox; then echo "BUILD FAILED for olbox"; tail -20 /verif/.build/olbox.build.log; exit 2; fi
+  if [ "$ID" = C07 ]; then
+    # the same box built with the Go race detector, used for the concurrent-CheckTx histories
+    if build olbox -race -race; then export OLBOX_RACE_BIN=/verif/.build/olbox-race; else echo "note: race-detector build failed; concurrent histories skipped"; fi
+  fi
   exec /verif/.build/olmon check "$ID" "$TIER" "$@"
 else
   exec /verif/.build/$BIN "$TIER" "$@"
